@@ -10,7 +10,7 @@ use std::sync::Arc;
 use signal_hook::low_level::channel::Channel;
 use signal_hook_registry::verif::Kind;
 
-use crate::sched::{self, Body, Dfs, Event, Outcome, Random, Replay, RunCfg, RunResult, Strategy};
+use crate::sched::{self, Body, Dfs, Event, Hold, Outcome, Random, Replay, RunCfg, RunResult, Strategy};
 use crate::trace::{op_line, signature, signature_json, LocMap, Obj};
 use crate::Args;
 
@@ -279,6 +279,10 @@ pub fn main(args: &Args) -> i32 {
             sched::run(bodies, &mut rp, &cfg)
         } else if mode == "random" {
             sched::run(bodies, &mut rnd as &mut dyn Strategy, &cfg)
+        } else if mode == "hold" {
+            // two directed schedules: holders finish in ascending, then in descending order
+            let mut h = Hold { holds: args.num("holds", 1), descending: count == 1, runner: args.num("runner", usize::MAX) };
+            sched::run(bodies, &mut h, &cfg)
         } else {
             dfs.begin();
             sched::run(bodies, &mut dfs, &cfg)
@@ -347,6 +351,10 @@ pub fn main(args: &Args) -> i32 {
             break;
         }
         if mode == "dfs" && !dfs.advance() {
+            exhausted = true;
+            break;
+        }
+        if mode == "hold" && count >= 2 {
             exhausted = true;
             break;
         }
